@@ -258,6 +258,31 @@ def run(case):
         case.check(a6.shape == (2,) + shape and np.allclose(a6[0], a0[n - 1], atol=1e-6 * amp)
                    and np.allclose(a6[1], a0[0], atol=1e-6 * amp), "load([n-1, 0]) returns the wrong rows")
         case.check(tuple(loader.construct_dask().shape) == a0.shape, "construct_dask declares a wrong shape")
+        # the loader follows its molecules: after an in-place edit of the Molecules object the very same loader
+        # samples the new poses (compared with a fresh loader built at the new poses)
+        delta = rng.uniform(-1.0, 1.0, size=(n, 3)) * scale
+        qw = gen.small_rotation(rng, 10, 40)
+        try:
+            fresh = SubtomogramLoader(img, Molecules(mole.pos + delta, qw * mole.rotator), order=order, scale=scale,
+                                      output_shape=shape, corner_safe=p["corner_safe"])
+            b_ref = np.asarray(fresh.asnumpy())
+        except (SubvolumeOutOfBoundError, ValueError):
+            b_ref = None
+        if b_ref is not None:
+            loader.molecules.translate(delta, copy=False)
+            loader.molecules.rotate_by(qw, copy=False)
+            b0 = np.asarray(loader.asnumpy())
+            b1 = np.asarray(loader.load(n - 1))
+            case.count("inplace_edit_reloads")
+            okb = b0.shape == b_ref.shape and float(np.abs(b0 - b_ref).max()) <= 5e-3 * amp and \
+                float(np.abs(b1 - b_ref[n - 1]).max()) <= 5e-3 * amp
+            if order == 0 and b0.shape == b_ref.shape and not okb:
+                okb = float(np.mean(np.abs(b0 - b_ref) > 1e-6 * amp)) < 0.01 and \
+                    float(np.mean(np.abs(b1 - b_ref[n - 1]) > 1e-6 * amp)) < 0.01
+            case.check(okb, "after an in-place edit of its molecules the loader still samples the old poses", None,
+                       err=float(np.abs(b0 - b_ref).max()) if b0.shape == b_ref.shape else None, order=order)
+            # restore for the checks below
+            mole = Molecules(np.stack(valid_pos), Rotation.from_quat(np.stack(valid_rot)))
         # a batch loader over two registrations of the tomogram must load the same sub-volumes
         from acryo import BatchLoader
 
